@@ -795,6 +795,289 @@ def merge_cases(ctx, res, n, model=True):
 # ---------------------------------------------------------------------------
 
 
+# ---------------------------------------------------------------------------
+# a handle with a SUSPENDED key iterator is still a handle: it sees at once what other handles, threads and processes
+# commit, and its own writes succeed
+
+
+class IterStuck(Exception):
+    pass
+
+
+IT_ITERS = {
+    'cache': ['iter', 'reversed', 'iterkeys', 'iterkeys_reverse'],
+    'fanout': ['iter', 'reversed'],
+    'index': ['iter', 'reversed', 'keys', 'values', 'items'],
+    'deque': ['iter', 'reversed'],
+}
+IT_WRITERS = ['handle', 'thread', 'thread_same_object', 'process', 'fork']
+IT_BIG = 'F' * 33000          # above the default file threshold
+
+
+def it_open(kind, d):
+    if kind == 'cache':
+        return diskcache.Cache(d, timeout=2)
+    if kind == 'fanout':
+        return diskcache.FanoutCache(d, shards=SHARDS, timeout=2)
+    if kind == 'index':
+        return diskcache.Index(d)
+    return diskcache.Deque(directory=d)
+
+
+def it_make(kind, h, how):
+    if how == 'iter':
+        return iter(h)
+    if how == 'reversed':
+        return reversed(h)
+    if how == 'iterkeys':
+        return h.iterkeys()
+    if how == 'iterkeys_reverse':
+        return h.iterkeys(reverse=True)
+    return iter(getattr(h, how)())        # Index views: keys / values / items
+
+
+def it_write(kind, h, items):
+    """items: [(key, value)]; Deque appends the values"""
+    for k, v in items:
+        if kind in ('cache', 'fanout'):
+            if h.set(k, v, retry=True) is not True:
+                raise RuntimeError('set(%r) returned a false value' % (k,))
+        elif kind == 'index':
+            h[k] = v
+        else:
+            h.append(v)
+
+
+def it_items(writer, j):
+    vals = ['written by %s' % writer, ('pickled', writer, j), IT_BIG + writer]
+    return [('w-%s-%d-%d' % (writer, j, i), v) for i, v in enumerate(vals)]
+
+
+def iterworker_main():
+    """persistent writer process: one JSON request per line {kind, dir, items(pickle hex)} -> {ok} / {error}"""
+    for line in sys.stdin:
+        line = line.strip()
+        if not line:
+            continue
+        try:
+            req = json.loads(line)
+            h = it_open(req['kind'], req['dir'])
+            it_write(req['kind'], h, pickle.loads(bytes.fromhex(req['items'])))
+            close_handle(req['kind'], h)
+            out = {'ok': True}
+        except Exception as e:  # noqa
+            out = {'error': repr(e)}
+        sys.stdout.write(json.dumps(out) + '\n')
+        sys.stdout.flush()
+
+
+class IterWorker:
+    def __init__(self):
+        env = dict(os.environ)
+        env['VERIF_REPO'] = fw.REPO
+        env['PYTHONPATH'] = os.pathsep.join([fw.REPO, HARNESS])
+        env['PYTHONHASHSEED'] = '0'
+        env['PYTHONDONTWRITEBYTECODE'] = '1'
+        self.p = subprocess.Popen([fw.PY, os.path.abspath(__file__), 'iterworker'], stdin=subprocess.PIPE, stdout=subprocess.PIPE,
+                                  text=True, env=env, bufsize=1)
+
+    def write(self, kind, d, items):
+        self.p.stdin.write(json.dumps({'kind': kind, 'dir': d, 'items': pickle.dumps(items, protocol=2).hex()}) + '\n')
+        self.p.stdin.flush()
+        line = self.p.stdout.readline()
+        if not line:
+            return 'writer process died (exit %r)' % self.p.poll()
+        return json.loads(line).get('error')
+
+    def close(self):
+        try:
+            self.p.stdin.close()
+            self.p.wait(10)
+        except Exception:
+            self.p.kill()
+
+
+def it_guard(seconds, f):
+    """run f() in this thread; a call that never returns (a retry loop that cannot make progress) is interrupted"""
+    import signal
+    if threading.current_thread() is not threading.main_thread():
+        return f()
+
+    def on_alarm(signum, frame):
+        raise IterStuck('no progress for %d s' % seconds)
+    old = signal.signal(signal.SIGALRM, on_alarm)
+    signal.alarm(seconds)
+    try:
+        return f()
+    finally:
+        signal.alarm(0)
+        signal.signal(signal.SIGALRM, old)
+
+
+def it_visible(kind, a, expected_new, total, seq):
+    """what handle `a` shows, against what has been committed so far; returns a list of complaints"""
+    bad = []
+    if kind == 'deque':
+        n = len(a)
+        if n != len(seq):
+            bad.append('len = %d, committed %d' % (n, len(seq)))
+        else:
+            for i in range(max(0, len(seq) - 3), len(seq)):
+                got = a[i]
+                if not val.same(got, seq[i]):
+                    bad.append('[%d] = %s, committed %s' % (i, short(got), short(seq[i])))
+        again = list(a)
+        if not val.same(again, seq):
+            bad.append('a second, complete iteration gives %d items, committed %d' % (len(again), len(seq)))
+        return bad
+    for k, v in expected_new:
+        try:
+            got = a.get(k, '<absent>') if kind != 'index' else a.get(k, '<absent>')
+        except Exception as e:  # noqa
+            got = '<raised %r>' % e
+        if not val.same(got, v):
+            bad.append('get(%r) = %s, committed %s' % (k, short(got), short(v)))
+        if k not in a:
+            bad.append('%r in handle is False' % (k,))
+        try:
+            got = a[k]
+            if not val.same(got, v):
+                bad.append('[%r] = %s, committed %s' % (k, short(got), short(v)))
+        except KeyError:
+            bad.append('[%r] raises KeyError' % (k,))
+    n = len(a)
+    if n != total:
+        bad.append('len = %d, committed %d' % (n, total))
+    keys_again = set(a)
+    missing = [k for k, _ in expected_new if k not in keys_again]
+    if missing:
+        bad.append('a second, complete iteration misses %s' % short(missing))
+    return bad
+
+
+def suspended_iterator_case(scratch, case, worker):
+    """One scenario.  Returns [(sig, description)]."""
+    kind, how, n, consumed, writers = case['kind'], case['iter'], case['n'], case['consumed'], case['writers']
+    d = os.path.join(scratch, 'it')
+    found = []
+    a = it_open(kind, d)
+    b = None
+    it = None
+    try:
+        init = [((i if i % 2 == 0 else 'k%d' % i), 'item-%d' % i) for i in range(n)]
+        it_write(kind, a, init)
+        b = it_open(kind, d)
+        seq = [v for _, v in init]
+        total = n
+        it = it_make(kind, a, how)
+        for _ in range(consumed):
+            next(it)
+        # the iterator of handle a is now suspended
+        for j, w in enumerate(writers):
+            items = it_items(w, j)
+            err = None
+            try:
+                if w == 'handle':
+                    it_write(kind, b, items)
+                elif w in ('thread', 'thread_same_object'):
+                    box = {}
+                    target = b if w == 'thread' else a
+
+                    def job():
+                        try:
+                            it_write(kind, target, items)
+                        except Exception as e:  # noqa
+                            box['e'] = repr(e)
+                    t = threading.Thread(target=job)
+                    t.start()
+                    t.join(60)
+                    err = box.get('e') or ('thread still running' if t.is_alive() else None)
+                elif w == 'process':
+                    err = worker.write(kind, d, items)
+                elif w == 'fork':
+                    pid = os.fork()
+                    if pid == 0:
+                        code = 1
+                        try:
+                            h = it_open(kind, d)
+                            it_write(kind, h, items)
+                            close_handle(kind, h)
+                            code = 0
+                        finally:
+                            os._exit(code)
+                    _, status = os.waitpid(pid, 0)
+                    err = None if status == 0 else 'forked writer exited with status %r' % status
+            except Exception as e:  # noqa
+                err = repr(e)
+            if err:
+                found.append(('suspended_iter:%s:other_writer_failed' % kind,
+                              'while an iterator (%s) of another handle is suspended, the write by %s failed: %s' % (how, w, err)))
+                continue
+            seq += [v for _, v in items]
+            total += len(items)
+            try:
+                bad = it_guard(20, lambda: it_visible(kind, a, items, total, seq))
+            except Exception as e:  # noqa
+                bad = ['looking up raised %r' % e]
+            if bad:
+                found.append(('suspended_iter:%s:stale_read' % kind,
+                              'handle with a suspended %s iterator (%d of %d keys consumed) does not show what %s committed: %s'
+                              % (how, consumed, n, w, '; '.join(bad[:4]))))
+        # the handle's own write
+        own = it_items('own', 99)
+        try:
+            it_guard(10, lambda: it_write(kind, a, own))
+            seq += [v for _, v in own]
+            total += len(own)
+            try:
+                bad = it_visible(kind, b, own, total, seq)
+            except Exception as e:  # noqa
+                bad = ['looking up raised %r' % e]
+            if bad:
+                found.append(('suspended_iter:%s:own_write_invisible' % kind,
+                              'a write through the handle with a suspended %s iterator is not seen by another handle: %s' % (how, '; '.join(bad[:4]))))
+        except Exception as e:  # noqa
+            found.append(('suspended_iter:%s:own_write_blocked' % kind,
+                          'a write through the handle with a suspended %s iterator (%d of %d keys consumed, no transaction open anywhere) '
+                          'failed: %r' % (how, consumed, n, e)))
+        try:
+            for _ in it:
+                pass
+        except Exception as e:  # noqa
+            found.append(('suspended_iter:%s:resume_failed' % kind, 'resuming the suspended %s iterator raised %r' % (how, e)))
+    finally:
+        it = None
+        close_handle(kind, a)
+        if b is not None:
+            close_handle(kind, b)
+        shutil.rmtree(d, ignore_errors=True)
+    return found
+
+
+def suspended_iterators(ctx, res, thorough):
+    worker = IterWorker()
+    n_run = 0
+    try:
+        shapes = [(6, 1), (6, 5), (130, 101)] + ([(6, 3), (130, 1), (130, 129), (230, 200)] if thorough else [])
+        for kind in ('cache', 'fanout', 'index', 'deque'):
+            for hi, how in enumerate(IT_ITERS[kind]):
+                for si, (n, consumed) in enumerate(shapes):
+                    r = (ctx.seed + hi + si) % len(IT_WRITERS)
+                    orders = [IT_WRITERS[r:] + IT_WRITERS[:r]]
+                    if thorough:
+                        orders.append(list(reversed(orders[0])))
+                    for writers in orders:
+                        case = {'check': 'suspended_iterator', 'kind': kind, 'iter': how, 'n': n, 'consumed': consumed, 'writers': writers}
+                        found = suspended_iterator_case(ctx.scratch('c18it'), case, worker)
+                        n_run += 1
+                        res.count(['suspended_iterator', kind, how, n, consumed, writers], nontrivial=True)
+                        for sig, desc in found:
+                            res.violations.append(fw.Violation(sig, desc, case))
+    finally:
+        worker.close()
+    res.extra['suspended_iterator_scenarios'] = n_run
+
+
 def witness_d17():
     d = tempfile.mkdtemp(prefix='c18wit-')
     try:
@@ -833,6 +1116,10 @@ def run(ctx, big=False, model=True):
     _st = {}
     _c08.open_races(ctx, res, _st, 150 if thorough else 12)
     res.extra['open_race_schedules'] = _st.get('open_race_runs', 0)
+    import time as _t
+    t0 = _t.time()
+    suspended_iterators(ctx, res, thorough and not ctx.quick)
+    res.extra['suspended_iterator_s'] = round(_t.time() - t0, 1)
     res.witnessed['fanout_size_limit_reset'] = witness_d17()
     return res
 
@@ -847,6 +1134,15 @@ def replay(payload):
     try:
         if case.get('check') == 'history':
             found = run_history(d, case)
+            for sig, desc in found:
+                print('%s: %s' % (sig, desc))
+            return not found
+        if case.get('check') == 'suspended_iterator':
+            worker = IterWorker()
+            try:
+                found = suspended_iterator_case(d, case, worker)
+            finally:
+                worker.close()
             for sig, desc in found:
                 print('%s: %s' % (sig, desc))
             return not found
@@ -878,3 +1174,5 @@ def replay(payload):
 
 if __name__ == '__main__' and len(sys.argv) > 1 and sys.argv[1] == 'worker':
     worker_main()
+if __name__ == '__main__' and len(sys.argv) > 1 and sys.argv[1] == 'iterworker':
+    iterworker_main()
